@@ -432,6 +432,10 @@ def normalise_aliases(repo):
                 continue
             new = normalize.apply(f.node, fin)
             if new is not None:
+                f = replace_node(m, f, new) or f
+                n += 1
+            new = normalize.apply_predicates(f.node)
+            if new is not None:
                 replace_node(m, f, new)
                 n += 1
     repo.alias_normalised = n
